@@ -157,9 +157,18 @@ Model/Lock.vos Model/Lock.vok Model/Lock.required_vos: Model/Lock.v
 Proofs/LockProof.vo Proofs/LockProof.glob Proofs/LockProof.v.beautified Proofs/LockProof.required_vo: Proofs/LockProof.v Model/Lock.vo
 Proofs/LockProof.vio: Proofs/LockProof.v Model/Lock.vio
 Proofs/LockProof.vos Proofs/LockProof.vok Proofs/LockProof.required_vos: Proofs/LockProof.v Model/Lock.vos
-Properties/C14.vo Properties/C14.glob Properties/C14.v.beautified Properties/C14.required_vo: Properties/C14.v Model/Lock.vo Proofs/LockProof.vo
-Properties/C14.vio: Properties/C14.v Model/Lock.vio Proofs/LockProof.vio
-Properties/C14.vos Properties/C14.vok Properties/C14.required_vos: Properties/C14.v Model/Lock.vos Proofs/LockProof.vos
+Model/LockAddrs.vo Model/LockAddrs.glob Model/LockAddrs.v.beautified Model/LockAddrs.required_vo: Model/LockAddrs.v 
+Model/LockAddrs.vio: Model/LockAddrs.v 
+Model/LockAddrs.vos Model/LockAddrs.vok Model/LockAddrs.required_vos: Model/LockAddrs.v 
+Proofs/LockAddrsProof.vo Proofs/LockAddrsProof.glob Proofs/LockAddrsProof.v.beautified Proofs/LockAddrsProof.required_vo: Proofs/LockAddrsProof.v Model/LockAddrs.vo
+Proofs/LockAddrsProof.vio: Proofs/LockAddrsProof.v Model/LockAddrs.vio
+Proofs/LockAddrsProof.vos Proofs/LockAddrsProof.vok Proofs/LockAddrsProof.required_vos: Proofs/LockAddrsProof.v Model/LockAddrs.vos
+Properties/C14.vo Properties/C14.glob Properties/C14.v.beautified Properties/C14.required_vo: Properties/C14.v Model/Lock.vo Proofs/LockProof.vo Model/LockAddrs.vo Proofs/LockAddrsProof.vo
+Properties/C14.vio: Properties/C14.v Model/Lock.vio Proofs/LockProof.vio Model/LockAddrs.vio Proofs/LockAddrsProof.vio
+Properties/C14.vos Properties/C14.vok Properties/C14.required_vos: Properties/C14.v Model/Lock.vos Proofs/LockProof.vos Model/LockAddrs.vos Proofs/LockAddrsProof.vos
+AsFound/C14.vo AsFound/C14.glob AsFound/C14.v.beautified AsFound/C14.required_vo: AsFound/C14.v Model/LockAddrs.vo
+AsFound/C14.vio: AsFound/C14.v Model/LockAddrs.vio
+AsFound/C14.vos AsFound/C14.vok AsFound/C14.required_vos: AsFound/C14.v Model/LockAddrs.vos
 Model/Reader.vo Model/Reader.glob Model/Reader.v.beautified Model/Reader.required_vo: Model/Reader.v 
 Model/Reader.vio: Model/Reader.v 
 Model/Reader.vos Model/Reader.vok Model/Reader.required_vos: Model/Reader.v 
@@ -172,6 +181,9 @@ Model/Compressor.vos Model/Compressor.vok Model/Compressor.required_vos: Model/C
 Model/Filter.vo Model/Filter.glob Model/Filter.v.beautified Model/Filter.required_vo: Model/Filter.v Lib/Bytes.vo
 Model/Filter.vio: Model/Filter.v Lib/Bytes.vio
 Model/Filter.vos Model/Filter.vok Model/Filter.required_vos: Model/Filter.v Lib/Bytes.vos
+Model/TaskJoin.vo Model/TaskJoin.glob Model/TaskJoin.v.beautified Model/TaskJoin.required_vo: Model/TaskJoin.v 
+Model/TaskJoin.vio: Model/TaskJoin.v 
+Model/TaskJoin.vos Model/TaskJoin.vok Model/TaskJoin.required_vos: Model/TaskJoin.v 
 Proofs/FilterProof.vo Proofs/FilterProof.glob Proofs/FilterProof.v.beautified Proofs/FilterProof.required_vo: Proofs/FilterProof.v Lib/Bytes.vo Model/Reader.vo Model/Filter.vo Proofs/ReaderProof.vo
 Proofs/FilterProof.vio: Proofs/FilterProof.v Lib/Bytes.vio Model/Reader.vio Model/Filter.vio Proofs/ReaderProof.vio
 Proofs/FilterProof.vos Proofs/FilterProof.vok Proofs/FilterProof.required_vos: Proofs/FilterProof.v Lib/Bytes.vos Model/Reader.vos Model/Filter.vos Proofs/ReaderProof.vos
@@ -184,9 +196,12 @@ Properties/C08.vos Properties/C08.vok Properties/C08.required_vos: Properties/C0
 Properties/C15.vo Properties/C15.glob Properties/C15.v.beautified Properties/C15.required_vo: Properties/C15.v Model/Reader.vo Proofs/ReaderProof.vo
 Properties/C15.vio: Properties/C15.v Model/Reader.vio Proofs/ReaderProof.vio
 Properties/C15.vos Properties/C15.vok Properties/C15.required_vos: Properties/C15.v Model/Reader.vos Proofs/ReaderProof.vos
-Properties/C20.vo Properties/C20.glob Properties/C20.v.beautified Properties/C20.required_vo: Properties/C20.v Lib/Bytes.vo Lib/Val.vo Model/Reader.vo Model/Filter.vo Proofs/ReaderProof.vo Proofs/FilterProof.vo
-Properties/C20.vio: Properties/C20.v Lib/Bytes.vio Lib/Val.vio Model/Reader.vio Model/Filter.vio Proofs/ReaderProof.vio Proofs/FilterProof.vio
-Properties/C20.vos Properties/C20.vok Properties/C20.required_vos: Properties/C20.v Lib/Bytes.vos Lib/Val.vos Model/Reader.vos Model/Filter.vos Proofs/ReaderProof.vos Proofs/FilterProof.vos
+Properties/C20.vo Properties/C20.glob Properties/C20.v.beautified Properties/C20.required_vo: Properties/C20.v Lib/Bytes.vo Lib/Val.vo Model/Reader.vo Model/Filter.vo Model/TaskJoin.vo Proofs/ReaderProof.vo Proofs/FilterProof.vo
+Properties/C20.vio: Properties/C20.v Lib/Bytes.vio Lib/Val.vio Model/Reader.vio Model/Filter.vio Model/TaskJoin.vio Proofs/ReaderProof.vio Proofs/FilterProof.vio
+Properties/C20.vos Properties/C20.vok Properties/C20.required_vos: Properties/C20.v Lib/Bytes.vos Lib/Val.vos Model/Reader.vos Model/Filter.vos Model/TaskJoin.vos Proofs/ReaderProof.vos Proofs/FilterProof.vos
+AsFound/C20.vo AsFound/C20.glob AsFound/C20.v.beautified AsFound/C20.required_vo: AsFound/C20.v Model/TaskJoin.vo
+AsFound/C20.vio: AsFound/C20.v Model/TaskJoin.vio
+AsFound/C20.vos AsFound/C20.vok AsFound/C20.required_vos: AsFound/C20.v Model/TaskJoin.vos
 AsFound/C08.vo AsFound/C08.glob AsFound/C08.v.beautified AsFound/C08.required_vo: AsFound/C08.v Model/Reader.vo Model/Compressor.vo Proofs/ReaderProof.vo Properties/C08.vo Properties/C15.vo
 AsFound/C08.vio: AsFound/C08.v Model/Reader.vio Model/Compressor.vio Proofs/ReaderProof.vio Properties/C08.vio Properties/C15.vio
 AsFound/C08.vos AsFound/C08.vok AsFound/C08.required_vos: AsFound/C08.v Model/Reader.vos Model/Compressor.vos Proofs/ReaderProof.vos Properties/C08.vos Properties/C15.vos
